@@ -187,14 +187,21 @@ def run(ck):
         # batch shapes (rank 0..3, empty): the op on a shaped tensor equals the op on its items
         for kind in lie.ALGS:
             d = L.ALG[kind]
+            Xl = ladder_inputs(kind, u, rng, 1)
             for shp in gen.batch_shapes():
-                x = rng.standard_normal(shp + (d,)) * rng.choice([1e-9, 1e-3, 1.0, 2.5])
+              for source in ("scaled-normal", "ladder-mix"):
+                n_ = int(np.prod(shp, dtype=np.int64))
+                if source == "ladder-mix" and n_ < 2:
+                    continue
+                # ladder-mix: items of all regimes (exact zeros, thresholds, large) inside one shaped call
+                x = rng.standard_normal(shp + (d,)) * rng.choice([1e-9, 1e-3, 1.0, 2.5]) if source == "scaled-normal" else \
+                    Xl[rng.integers(0, len(Xl), n_)].reshape(shp + (d,))
                 xt = lie.lt(kind, x, lie.DT[dn])
                 okc, Y = ck.call("exp_shape", f"{kind}/{dn}/{shp}", f"{kind}.Exp", lambda: xt.Exp())
                 if not okc:
                     continue
                 G = L.ALG2GRP[kind]
-                ck.count("exp_shape", f"{kind}/{dn}/rank{len(shp)}{'/empty' if 0 in shp else ''}", key=str(shp),
+                ck.count("exp_shape", f"{kind}/{dn}/rank{len(shp)}{'/empty' if 0 in shp else ''}/{source}", key=str(shp),
                          nontrivial=0 not in shp)
                 ck.check(tuple(Y.shape) == shp + (L.GRP[G],) and Y.ltype is lie.LT[G] and Y.dtype == lie.DT[dn],
                          "exp_shape", str(shp), f"{kind}.Exp", "type_or_shape", {"shape": list(Y.shape)})
